@@ -421,10 +421,11 @@ pub fn diff_exact(a: &Decoded, b: &Decoded) -> Option<(String, String, String)> 
 /// projections): cases with a large file take this lock, so that at most one of them is in
 /// its Python leg at a time whatever the number of shards (no verdict depends on it).
 static BIG_CASE: std::sync::Mutex<()> = std::sync::Mutex::new(());
-const BIG_BYTES: usize = 150_000;
+/// a workbook with more cells than this is "big"
+pub const BIG_CELLS: usize = 40_000;
 
-fn big_guard(inputs: &[&[u8]]) -> Option<std::sync::MutexGuard<'static, ()>> {
-    if inputs.iter().any(|b| b.len() > BIG_BYTES) {
+fn big_guard(big: bool) -> Option<std::sync::MutexGuard<'static, ()>> {
+    if big {
         Some(BIG_CASE.lock().unwrap_or_else(|e| e.into_inner()))
     } else {
         None
@@ -432,8 +433,8 @@ fn big_guard(inputs: &[&[u8]]) -> Option<std::sync::MutexGuard<'static, ()>> {
 }
 
 /// C04 Python leg.  `orig` = the source file (corpus) or None (workbook built through the API).
-pub fn c04_leg(src: &str, orig: Option<&[u8]>, b1: &[u8], b2: &[u8], b3: &[u8]) -> Result<(), PyDisc> {
-    let _big = big_guard(&[orig.unwrap_or(&[]), b1]);
+pub fn c04_leg(src: &str, orig: Option<&[u8]>, b1: &[u8], b2: &[u8], b3: &[u8], big: bool) -> Result<(), PyDisc> {
+    let _big = big_guard(big);
     if let Ok(dir) = std::env::var("VERIF_PYLEG_DUMP") {
         let _ = std::fs::create_dir_all(&dir);
         let _ = std::fs::write(format!("{}/gen1.xlsx", dir), b1);
@@ -481,11 +482,11 @@ pub fn c04_leg(src: &str, orig: Option<&[u8]>, b1: &[u8], b2: &[u8], b3: &[u8]) 
 /// no operation edited.
 /// `eager_saved` = the file the eagerly opened twin wrote after the same history: rules it
 /// breaks as well (an insert that pushes content off the grid, ...) are not a lazy/eager matter.
-pub fn c11_leg(src: &str, orig: &[u8], eager_saved: &[u8], saved: &[u8], untouched: &[(usize, usize, bool)]) -> Result<(), PyDisc> {
+pub fn c11_leg(src: &str, orig: &[u8], eager_saved: &[u8], saved: &[u8], untouched: &[(usize, usize, bool)], big: bool) -> Result<(), PyDisc> {
     if std::env::var("VERIF_NO_PYLEG").is_ok() {
         return Ok(());
     }
-    let _big = big_guard(&[orig, saved]);
+    let _big = big_guard(big);
     let (mut viol0, d0) = pyworker::both(orig);
     let (viol1, dec1) = pyworker::both(saved);
     if !viol1.is_empty() {
